@@ -70,7 +70,19 @@ func aliasesSecretBytes(v ssa.Value, depth int) (bool, string) {
 			}
 			return false, ""
 		}
-		// bytes.Clone / slices.Clone and everything else returns fresh or unrelated memory
+		// the known copying operations return fresh memory ...
+		if eng.CalleeIs(&x.Call, "bytes", "Clone") || eng.CalleeIs(&x.Call, "slices", "Clone") || eng.CalleeIs(&x.Call, "bytes", "Repeat") {
+			return false, ""
+		}
+		// ... any other call handed the store's bytes and returning a byte
+		// slice may return (part of) its argument: slices.Clip, bytes.TrimSpace, ...
+		if sl, isSl := x.Type().Underlying().(*types.Slice); isSl && types.Identical(sl.Elem(), types.Typ[types.Byte]) {
+			for _, a := range x.Call.Args {
+				if al, w := aliasesSecretBytes(a, depth+1); al {
+					return true, w + " through " + eng.CallStr(&x.Call) + " (not a copying operation)"
+				}
+			}
+		}
 	case *ssa.UnOp:
 		if x.Op == token.MUL {
 			if al, ok := x.X.(*ssa.Alloc); ok {
@@ -100,19 +112,27 @@ func runC20(c *eng.Ctx, tier string) {
 	for _, f := range p.PkgFuncs(setecPkg) {
 		eng.Instrs(f, func(in ssa.Instruction) {
 			call, ok := in.(*ssa.Call)
-			if !ok || !eng.CalleeIs(&call.Call, "reflect", "ValueOf") {
+			if !ok {
 				return
 			}
-			arg := call.Call.Args[0]
-			mi, isMI := arg.(*ssa.MakeInterface)
-			if !isMI {
+			var arg ssa.Value
+			switch {
+			case eng.CalleeIs(&call.Call, "reflect", "ValueOf"):
+				mi, isMI := call.Call.Args[0].(*ssa.MakeInterface)
+				if !isMI {
+					return
+				}
+				arg = mi.X
+			case eng.CalleeIs(&call.Call, "reflect", "Value.SetBytes"):
+				arg = call.Call.Args[len(call.Call.Args)-1]
+			default:
 				return
 			}
-			if sl, isSl := mi.X.Type().Underlying().(*types.Slice); !isSl || !types.Identical(sl.Elem(), types.Typ[types.Byte]) {
+			if sl, isSl := arg.Type().Underlying().(*types.Slice); !isSl || !types.Identical(sl.Elem(), types.Typ[types.Byte]) {
 				return
 			}
 			n1++
-			alias, what := aliasesSecretBytes(mi.X, 0)
+			alias, what := aliasesSecretBytes(arg, 0)
 			c.Check(!alias, "R-C20-1", f, in.Pos(), "bytes stored into caller memory: "+eng.CallStr(&call.Call), "a []byte field receives a private copy (bytes.Clone / slices.Clone / append onto nil) of the secret, never the store's own slice", "aliases "+what+": writing to the populated field changes what the store serves")
 		})
 	}
